@@ -191,8 +191,10 @@ func (p *parser) nud() *Node {
 			return p.call(t.text)
 		}
 		if p.cur().kind == tLparen {
-			// "foo (" : whitespace between a function name and its parenthesis
-			p.unsure("whitespace between function name and (")
+			// "foo (" : whitespace between tokens is not significant
+			if t.text == "let" || t.text == "in" {
+				p.unsure("let/in used as identifier")
+			}
 			return p.call(t.text)
 		}
 		if t.text == "let" && p.cur().kind == tVariable {
@@ -258,9 +260,6 @@ func (p *parser) nud() *Node {
 		case p.cur().kind == tNumber || p.cur().kind == tColon:
 			return p.indexOrSlice(&Node{Kind: KCurrent})
 		case p.cur().kind == tStar && p.peek(1).kind == tRbracket:
-			if p.cur().ws || p.peek(1).ws {
-				p.unsure("whitespace inside [*]")
-			}
 			p.advance()
 			p.advance()
 			return &Node{Kind: KProj, Proj: "list", Left: &Node{Kind: KCurrent}, Right: p.projRHS(bpStar)}
@@ -280,9 +279,6 @@ func (p *parser) led(left *Node) *Node {
 	switch t.kind {
 	case tDot:
 		if p.cur().kind == tStar {
-			if p.cur().ws {
-				p.unsure("whitespace inside .*")
-			}
 			p.advance()
 			power := bpStar
 			if p.style == RefImpl {
@@ -296,9 +292,6 @@ func (p *parser) led(left *Node) *Node {
 		case p.cur().kind == tNumber || p.cur().kind == tColon:
 			return p.indexOrSlice(left)
 		case p.cur().kind == tStar && p.peek(1).kind == tRbracket:
-			if p.cur().ws || p.peek(1).ws {
-				p.unsure("whitespace inside [*]")
-			}
 			p.advance()
 			p.advance()
 			return &Node{Kind: KProj, Proj: "list", Left: left, Right: p.projRHS(bpStar)}
@@ -380,9 +373,6 @@ func (p *parser) projRHS(power int) *Node {
 				left = p.led(left)
 			}
 			return left
-		}
-		if p.cur().kind == tStar && p.cur().ws {
-			p.unsure("whitespace inside .*")
 		}
 		return p.dotRHS(power)
 	case p.lbp(t) < 10:
@@ -548,6 +538,11 @@ func (p *parser) call(name string) *Node {
 	}
 	for {
 		var arg *Node
+		if known && sig.ExprAt(len(n.Items)) && (sig.Max < 0 || len(n.Items) < sig.Max) && p.cur().kind != tExpref {
+			// a one-token look at the argument already shows that it is not an expression reference: a parser may say so
+			// before it finds out that the argument is malformed as well ("map(" + end of input)
+			p.fault("invalid-type")
+		}
 		if p.cur().kind == tExpref {
 			p.advance()
 			arg = &Node{Kind: KExpRef, Left: p.expression(0)}
@@ -594,16 +589,8 @@ func (p *parser) call(name string) *Node {
 // decodeQuoted decodes a quoted identifier (a JSON string).
 func decodeQuoted(tok string) (s string, ok bool, unsure string) {
 	body := tok[1 : len(tok)-1]
-	s, ok, unsure = decodeJSONString(body)
-	if !ok {
-		for i := 0; i < len(body); i++ {
-			if body[i] < 0x20 {
-				// the grammar excludes raw control characters from quoted identifiers, the corpus does not pin it
-				return "", true, "raw control character in a quoted identifier"
-			}
-		}
-	}
-	return s, ok, unsure
+	// the grammar (a JSON string) excludes raw control characters: decodeJSONString rejects them
+	return decodeJSONString(body)
 }
 
 // decodeJSONString decodes the inside of a JSON string strictly.
